@@ -48,6 +48,13 @@ impl Extractor {
     }
 
     fn add_class(&mut self, bitmap: &Bitmap) {
+        // An empty class never matches. This must not leave an empty list of literals, which
+        // means "no literals yet" and not "no possible literals".
+        if bitmap.count_ones() == 0 {
+            self.all = None;
+            return;
+        }
+
         // First, commit the local buffer, to have a proper list of all possible literals
         self.commit_buffer();
 
